@@ -201,8 +201,11 @@ def known_match(prop, sig):
     for f in load_known().get("findings", []):
         if f.get("property") != prop:
             continue
-        if all(sig.get(k) == v for k, v in f.get("match", {}).items()):
-            return f
+        alts = f.get("match", {})
+        alts = alts if isinstance(alts, list) else [alts]
+        for alt in alts:
+            if all((sig.get(k) in v) if isinstance(v, list) else (sig.get(k) == v) for k, v in alt.items()):
+                return f
     return None
 
 
